@@ -22,6 +22,8 @@ type FuncInfo struct {
 
 func (f *FuncInfo) FullName() string { return f.Pkg.Short + "." + f.Key }
 
+var repoDir = "/repo"
+
 type Frame struct {
 	parent   *Frame
 	fi       *FuncInfo
@@ -206,7 +208,7 @@ func (ex *Exec) posString(p token.Pos) string {
 		return ""
 	}
 	ps := ex.prog.Fset.Position(p)
-	return fmt.Sprintf("%s:%d", strings.TrimPrefix(ps.Filename, "/repo/"), ps.Line)
+	return fmt.Sprintf("%s:%d", strings.TrimPrefix(ps.Filename, repoDir+"/"), ps.Line)
 }
 
 // oblige records a proof obligation: assumes(st) ==> goal.
